@@ -110,6 +110,12 @@ func main() {
 		}
 		dataLens := []int{0, 1, 2, 100}
 		values := []*big.Int{big.NewInt(0), big.NewInt(1), bi("1000000000000000000")}
+		priceMul := []uint64{1, 2}
+		if !c.Quick() {
+			dataLens = []int{0, 1, 2, 3, 100, 1000}
+			values = append(values, big.NewInt(7), bi("1000000000000000001"), bi(genesisSupply))
+			priceMul = []uint64{1, 2, 5, 1000, 1000000}
+		}
 
 		var works []work
 		nCfg := 0
@@ -120,7 +126,10 @@ func main() {
 						for fl := 0; fl < 4; fl++ {
 							f := feeCfg{mp, mo, ml, pb, 1500000000, fl&1 != 0, fl&2 != 0, 1}
 							nCfg++
-							prices := []uint64{mp, mp + 1, 2 * mp, 3*mp + 1, 1 << 63}
+							prices := []uint64{mp + 1, 3*mp + 1, 1 << 63}
+							for _, k := range priceMul {
+								prices = append(prices, k*mp)
+							}
 							if *withBigPrices {
 								prices = append(prices, 1<<53+1, 1<<53+3, 1<<64-1)
 							}
@@ -134,7 +143,7 @@ func main() {
 		}
 		sort.SliceStable(works, func(i, j int) bool { return works[i].price < works[j].price })
 		c.Set("fee_configurations", nCfg)
-		c.Rule = fmt.Sprintf("full product: minGasPrice%v x modifier%v x minGasLimit%v x gasPerDataByte%v x 4 flag settings; tx: gasPrice{min,min+1,2min,3min+1,2^63%s} x data length%v x value{0,1,10^18}; balance = value + {-1,0,1,moveFee-1,moveFee,moveFee+1,moveFee+procPrice-1,moveFee+procPrice,moveFee+procPrice+1,moveFee+7*procPrice+3,moveFee+price-1,moveFee+price,2*moveFee+1} and absolute {0,10^30,2^64*price+5,2^200}. Non-trivial: a successful estimate strictly above the move-balance gas with the modifier flag on and modifier < 1 (the two-price branch decides).",
+		c.Rule = fmt.Sprintf("full product: minGasPrice%v x modifier%v x minGasLimit%v x gasPerDataByte%v x 4 flag settings; tx: gasPrice{min,min+1,2min,3min+1,2^63%s; thorough also 5min,1000min,10^6min} x data length%v x value{0,1,10^18; thorough also 7,10^18+1,genesis supply}; balance = value + {-1,0,1,moveFee-1,moveFee,moveFee+1,moveFee+procPrice-1,moveFee+procPrice,moveFee+procPrice+1,moveFee+7*procPrice+3,moveFee+price-1,moveFee+price,2*moveFee+1} and absolute {0,10^30,2^64*price+5,2^200}. Non-trivial: a successful estimate strictly above the move-balance gas with the modifier flag on and modifier < 1 (the two-price branch decides).",
 			minPrices, modifiers, minLimits, perByte, map[bool]string{true: ",2^53+1,2^53+3,2^64-1", false: ""}[*withBigPrices], dataLens)
 		c.Bound = "complete product of the stated alphabets"
 		c.Assumptions = []string{
